@@ -566,7 +566,7 @@ func (v *audioPackager) Encode(frame *AudioFrame) (tag []byte, err error) {
 func (v *audioPackager) Decode(tag []byte) (frame *AudioFrame, err error) {
 	// Refer to @doc video_file_format_spec_v10.pdf, @page 76, @section E.4.2 Audio Tags
 	// @see SrsFormat::audio_aac_demux
-	if len(tag) < 2 {
+	if len(tag) < 1 {
 		err = errDataNotEnough
 		return
 	}
@@ -579,9 +579,15 @@ func (v *audioPackager) Decode(tag []byte) (frame *AudioFrame, err error) {
 	frame.SoundType = AudioChannels(t & 0x01)
 
 	if frame.SoundFormat == AudioCodecAAC {
+		if len(tag) < 2 {
+			return nil, errDataNotEnough
+		}
 		frame.Trait = AudioFrameTrait(tag[1])
 		frame.Raw = tag[2:]
 	} else if frame.SoundFormat == AudioCodecOpus {
+		if len(tag) < 2 {
+			return nil, errDataNotEnough
+		}
 		frame.Trait = AudioFrameTrait(tag[1])
 		p := tag[2:]
 
@@ -734,7 +740,7 @@ func NewVideoPackager() (VideoPackager, error) {
 }
 
 func (v *videoPackager) Decode(tag []byte) (frame *VideoFrame, err error) {
-	if len(tag) < 5 {
+	if len(tag) < 1 {
 		err = errDataNotEnough
 		return
 	}
@@ -745,6 +751,9 @@ func (v *videoPackager) Decode(tag []byte) (frame *VideoFrame, err error) {
 	frame.CodecID = VideoCodec(byte(p[0]) & 0x0f)
 
 	if frame.CodecID == VideoCodecAVC || frame.CodecID == VideoCodecHEVC {
+		if len(tag) < 5 {
+			return nil, errDataNotEnough
+		}
 		frame.Trait = VideoFrameTrait(p[1])
 		frame.CTS = int32(uint32(p[2])<<16 | uint32(p[3])<<8 | uint32(p[4]))
 		frame.Raw = tag[5:]
